@@ -431,9 +431,9 @@ fn run(ctx: &Ctx) {
             }
             Case { seed, concurrency, events }
         });
-    ctx.run("late-result-scenarios", scenario, ctx.cases(1_600, 60_000), |c: &Case| check(ctx, c));
+    ctx.run("late-result-scenarios", scenario, ctx.cases(1_600, 20_000), |c: &Case| check(ctx, c));
     let depth = if ctx.quick() { 3 } else { 5 };
     ctx.enumerate(&format!("exhaustive-depth{depth}"), sequences(depth), true, |c: &Case| check(ctx, c));
-    ctx.run("sequences", strat(30), ctx.cases(1_600, 100_000), |c: &Case| check(ctx, c));
-    ctx.run("short-sequences", strat(9), ctx.cases(1_600, 100_000), |c: &Case| check(ctx, c));
+    ctx.run("sequences", strat(30), ctx.cases(1_600, 30_000), |c: &Case| check(ctx, c));
+    ctx.run("short-sequences", strat(9), ctx.cases(1_600, 30_000), |c: &Case| check(ctx, c));
 }
